@@ -22,8 +22,12 @@ BASE = {
 def main() -> int:
     props = [json.loads(l)["id"] for l in (V / "properties.jsonl").read_text().splitlines() if l.strip()]
     checks, engines, na = [], {}, []
+    ready = set((V / "manifest.d" / "_ready.txt").read_text().split())
     for pid in props:
         f = V / "manifest.d" / (pid + ".json")
+        if f.exists() and pid not in ready:
+            na.append({"property_id": pid, "reason": "check under construction (not yet accepted by the integrator); see DESIGN.md §6"})
+            continue
         if not f.exists():
             na.append({"property_id": pid, "reason": "check not built yet (planned in DESIGN.md §6)"})
             continue
